@@ -129,7 +129,8 @@ where
 {
     input
         .into_iter()
-        .filter_map(|t| LanguageIdentifier::try_from_bytes(t.as_ref()).ok())
+        // the elements of an `Accept-Language` header come with optional whitespace (`da, en-gb;q=0.8`)
+        .filter_map(|t| LanguageIdentifier::try_from_bytes(t.as_ref().trim_ascii()).ok())
         .collect()
 }
 
